@@ -464,6 +464,8 @@ func C05() *engine.Check {
 			c03Sub("policy-universe-completeness", "complete"),
 			c03HookSub("args-hook-completeness", "complete"),
 			c03SeqSub("same-token-sequences-completeness", "complete"),
+			c03SharedSub("policies-sharing-one-array-completeness", "complete"),
+			c03ValuesSub("complete"),
 			c04ChainSub("time-universe-completeness", "complete", 3, 5),
 			c04RealSub("real-clock-completeness", "complete", 3, 6),
 			c04RealSubZ("real-clock-zone-west-completeness", "complete", 2, 3, time.FixedZone("verif-west", -11*3600), 2*time.Hour),
